@@ -1155,9 +1155,14 @@ Definition handle_status (s : st) (k : task) : Z :=
            end
   end.
 
+(* order-independent summary of an exception: the sum of its leaf codes *)
+Definition exn_sum (e : exn) : Z := fold_right Z.add 0 (map leaf_code (leaves e)).
+
 Definition obs_task (s : st) (t : tid) : list Z :=
   let k := tasks s t in
-  [task_state_code k; nz (k_ncancel k); bz (k_must k); on (k_cur k); handle_status s k].
+  [task_state_code k; nz (k_ncancel k); bz (k_must k); on (k_cur k); handle_status s k;
+   match k_hret k with Some v => nz v + 1 | None => 0 end;          (* TaskHandle._return_value *)
+   match k_hexc k with Some e => exn_sum e | None => 0 end].        (* TaskHandle._exception *)
 
 Definition obs_scope (s : st) (c : sid) : list Z :=
   let x := scopes s c in
@@ -1169,7 +1174,8 @@ Definition obs_scope (s : st) (c : sid) : list Z :=
 Definition obs_group (s : st) (g : gid) : list Z :=
   let x := groups s g in
   [nz (length (g_tasks x)); if g_left x then 0 else nz (length (g_excs x));
-   bz (match g_fut x with Some _ => true | None => false end)].
+   bz (match g_fut x with Some _ => true | None => false end);
+   if g_left x then 0 else fold_right Z.add 0 (map (fun p => exn_sum (snd p)) (g_excs x))].   (* leaves of _exceptions *)
 
 Definition sleeper_of (s : st) (f : fid) : nat :=
   match find (fun t => match k_ctl (tasks s t) with CSleep f' _ => Nat.eqb f' f | _ => false end)
